@@ -16,6 +16,7 @@ Section PtInd.
   Hypothesis HRep : forall body count cs ms, P body -> P (Rep body count cs ms).
   Hypothesis HFor : forall body i a b st cs ms, P body -> P (For body i a b st cs ms).
   Hypothesis HMap : forall inner m cs, P inner -> P (Map inner m cs).
+  Hypothesis HRen : forall inner r, P inner -> P (Ren inner r).
 
   Fixpoint pt_ind' (p : pt) : P p :=
     match p with
@@ -31,6 +32,7 @@ Section PtInd.
     | Rep body count cs ms => HRep body count cs ms (pt_ind' body)
     | For body i a b st cs ms => HFor body i a b st cs ms (pt_ind' body)
     | Map inner m cs => HMap inner m cs (pt_ind' inner)
+    | Ren inner r => HRen inner r (pt_ind' inner)
     end.
 End PtInd.
 
@@ -359,6 +361,8 @@ Proof.
     destruct (IHp Hwf _ _ drop Hag') as [H1 [H2 H3]].
     cbn [obs_build wave obs_meas]. split; [|split]; auto.
     rewrite !map_app, H1. f_equal. apply obs_c_agree_a; auto.
+  - (* Ren *)
+    cbn [wf] in Hwf. cbn [obs_build wave obs_meas]. apply IHp; auto.
 Qed.
 
 Lemma atomic_coincidence : forall p, wf p -> forall r1 r2 drop, agree (pnames p) r1 r2 ->
